@@ -48,6 +48,27 @@ template <class Img, int NCH> void thresholds(const char* types, int w, int h, v
         }
     }
 }
+// one of the views is a window into a larger image (non-contiguous rows), the other a whole image; the pixels of the
+// destination's parent outside the window must not change
+template <class Img, int NCH> void thresholds_windows(const char* types, int w, int h, vt::Rng& rng) {
+    using ch_t = typename gil::channel_type<typename Img::view_t>::type;
+    long hi = (long)std::numeric_limits<ch_t>::max();
+    for (int variant = 0; variant < 3; ++variant) {
+        Img sbig(w + 3, h + 2), dbig(w + 4, h + 3), swhole(w, h), dwhole(w, h);
+        randomize(sbig, rng, 0); randomize(swhole, rng, 0); randomize(dbig, rng, 1); randomize(dwhole, rng, 1);
+        auto swin = gil::subimage_view(gil::const_view(sbig), 2, 1, w, h); auto dwin = gil::subimage_view(gil::view(dbig), 1, 2, w, h);
+        Img dbefore(dbig);
+        long t = (long)(rng.below(200)) - (std::is_signed<ch_t>::value ? 100 : 0); if (t > hi) t = hi;
+        auto emit = [&](auto const& sv, auto const& dv, const char* shape, const char* fn, const char* mode) {
+            long outside = 0;
+            for (int y = 0; y < dbig.height(); ++y) for (int x = 0; x < dbig.width(); ++x) { bool in = x >= 1 && x < 1 + w && y >= 2 && y < 2 + h; if (!in && gil::view(dbig)(x, y) != gil::view(dbefore)(x, y)) ++outside; }
+            for (int c = 0; c < NCH; ++c) J("Thr").str("fn", fn).str("types", std::string(types) + "/" + shape).str("dir", "regular").str("mode", mode).num("t", t).num("maxv", hi).num("ch", c).num("outside", outside)
+                .raw("src", img_json(sv, c)).raw("dst", img_json(dv, c)).emit(); };
+        if (variant == 0) { gil::threshold_binary(swin, gil::view(dwhole), (ch_t)t); emit(swin, gil::const_view(dwhole), "window->whole", "binary", ""); }
+        else if (variant == 1) { gil::threshold_binary(gil::const_view(swhole), dwin, (ch_t)t); emit(gil::const_view(swhole), dwin, "whole->window", "binary", ""); }
+        else { gil::threshold_truncate(swin, dwin, (ch_t)t); emit(swin, dwin, "window->window", "truncate", "threshold"); }
+    }
+}
 template <class Img, int NCH> void otsu(const char* types, int w, int h, int kind, vt::Rng& rng) {
     using ch_t = typename gil::channel_type<typename Img::view_t>::type;
     J("Try").str("what", "otsu").str("types", types).num("w", w).num("h", h).num("kind", kind).emit();
@@ -70,11 +91,14 @@ template <class Img, int NCH> void morph(const char* types, int w, int h, vt::Rn
             Img src(w, h); randomize(src, rng, rep == 0 ? 0 : 4);
             struct F { const char* n; int k; };
             for (F f : {F{"dilate", 0}, F{"erode", 1}, F{"opening", 2}, F{"closing", 3}, F{"dilate2", 4}, F{"erode2", 5}}) {
-                Img dst(w, h);
-                switch (f.k) { case 0: gil::dilate(gil::const_view(src), gil::view(dst), ker, 1); break; case 1: gil::erode(gil::const_view(src), gil::view(dst), ker, 1); break;
-                    case 2: gil::opening(gil::const_view(src), gil::view(dst), ker); break; case 3: gil::closing(gil::const_view(src), gil::view(dst), ker); break;
-                    case 4: gil::dilate(gil::const_view(src), gil::view(dst), ker, 2); break; default: gil::erode(gil::const_view(src), gil::view(dst), ker, 2); break; }
-                for (int c = 0; c < NCH; ++c) J("Morph").str("fn", f.n).str("types", types).raw("se", sej).num("ch", c).raw("src", img_json(gil::const_view(src), c)).raw("dst", img_json(gil::const_view(dst), c)).emit();
+                Img dparent(w + 2, h + 2); randomize(dparent, rng, 1); Img dpb(dparent);
+                auto dstv = gil::subimage_view(gil::view(dparent), 1, 1, w, h);          // destination: a window in a canary image
+                switch (f.k) { case 0: gil::dilate(gil::const_view(src), dstv, ker, 1); break; case 1: gil::erode(gil::const_view(src), dstv, ker, 1); break;
+                    case 2: gil::opening(gil::const_view(src), dstv, ker); break; case 3: gil::closing(gil::const_view(src), dstv, ker); break;
+                    case 4: gil::dilate(gil::const_view(src), dstv, ker, 2); break; default: gil::erode(gil::const_view(src), dstv, ker, 2); break; }
+                long outside = 0;
+                for (int y = 0; y < dparent.height(); ++y) for (int x = 0; x < dparent.width(); ++x) { bool in = x >= 1 && x <= w && y >= 1 && y <= h; if (!in && gil::view(dparent)(x, y) != gil::view(dpb)(x, y)) ++outside; }
+                for (int c = 0; c < NCH; ++c) J("Morph").str("fn", f.n).str("types", types).raw("se", sej).num("ch", c).num("outside", outside).raw("src", img_json(gil::const_view(src), c)).raw("dst", img_json(dstv, c)).emit();
             }
         } }, 30);
 }
@@ -94,6 +118,7 @@ int main(int argc, char** argv) {
         if (!args.thorough() && w * h > 9 && (w + h) % 2) continue;
         vt::Rng rng(args.seed * 131 + w * 17 + h);
         if (mine()) { thresholds<gil::gray8_image_t, 1>("gray8", w, h, rng); thresholds<gil::gray16_image_t, 1>("gray16", w, h, rng); }
+        if (mine()) { thresholds_windows<gil::gray8_image_t, 1>("gray8", w, h, rng); thresholds_windows<gil::rgb8_image_t, 3>("rgb8", w, h, rng); thresholds_windows<gil::gray16s_image_t, 1>("gray16s", w, h, rng); }
         if (mine()) { thresholds<gil::gray8s_image_t, 1>("gray8s", w, h, rng); thresholds<gil::gray16s_image_t, 1>("gray16s", w, h, rng); thresholds<gil::rgb8_image_t, 3>("rgb8", w, h, rng); }
         for (int kind = 0; kind <= 4; ++kind) {
             if (mine()) otsu<gil::gray8_image_t, 1>("gray8", w, h, kind, rng);
